@@ -7,6 +7,7 @@ import operator
 import z3
 
 from . import libmodels
+from . import pdagg  # noqa: F401  (registers the aggregate model)
 from .engine import Run, _Break, _Continue, _Return
 from .values import (SArr, UNDEF, MaybeUnbound, PathDead, SBoundLib, SClass, SEnumMember, SExcClass, SFunc, SIdx,
                      SLib, SObj, SOpaque, SSel, SSeq, SStr, SVec, SymRaise, Undefined, Unsupported,
@@ -51,7 +52,7 @@ class Interp:
             if name in f.locals:
                 v = f.locals[name]
                 if isinstance(v, MaybeUnbound):
-                    self.run.check(f"safety.defined[{name}]", False, kind="safety",
+                    self.run.check(f"safety.defined[{name}@{self.where(frame)}]", False, kind="safety",
                                    loc=frame.module.loc(node) if node is not None else "")
                     raise Unsupported(f"read of '{name}' which may be unbound or stale from another loop iteration", node)
                 return v
@@ -1024,13 +1025,21 @@ class Interp:
         except TypeError:
             raise Unsupported(f"operator {type(op).__name__} on {type(l).__name__}, {type(r).__name__}", node)
 
+    def where(self, frame):
+        """'relpath::qualname' of the function being executed (names of safety obligations: stable under
+        edits that only move lines)"""
+        if frame is None:
+            return self.call_stack[-1] if self.call_stack else ""
+        q = frame.func.qualname if frame.func is not None else "<module>"
+        return f"{frame.module.relpath}::{q}"
+
     def safety_nonzero(self, b, node, frame):
         loc = frame.module.loc(node) if frame is not None else ""
         if frame is not None and not frame.module.is_repo:
             # divisions written in sidecar specs carry their own guards; a zero divisor there makes the
             # z3 term unspecified (any value), which can only make an obligation harder to prove
             return
-        self.run.check(f"safety.div[{loc}]", b != 0, kind="safety", loc=loc)
+        self.run.check(f"safety.div[{self.where(frame)}]", b != 0, kind="safety", loc=loc)
 
     # ---------------------------------------------------------------- attribute / item access
     def get_attr(self, obj, name, node, frame):
@@ -1046,9 +1055,9 @@ class Interp:
                 m = self.find_method(obj.cls, name)
                 if m is not None:
                     decos = self.decorators(m.node)
-                    if any(d in ("property", "cached_property", "computed_field") for d in decos):
+                    if any(d in ("property", "cached_property", "computed_field", "computed_field_cached_property") for d in decos):
                         v = self.call_function(m.bind(obj), [], {}, node)
-                        if "cached_property" in decos:
+                        if "cached_property" in decos or "computed_field_cached_property" in decos:
                             obj.attrs[name] = v
                         return v
                     if "staticmethod" in decos:
@@ -1137,6 +1146,13 @@ class Interp:
             return fn.fn(self, args, kwargs, node, frame)
         if hasattr(fn, "sym_call"):
             return fn.sym_call(self, args, kwargs, node, frame)
+        if isinstance(fn, SOpaque):
+            # a method of an opaque value: unknown pure result, stable per (receiver, call site)
+            k = ("call", repr([a if not is_z3(a) else str(a) for a in args]), repr(sorted((kk, str(vv)) for kk, vv in kwargs.items())))
+            if k not in fn.attrs:
+                fn.attrs[k] = SOpaque(f"{fn.label}()")
+            self.run.assumptions.add(f"[opaque] result of calling {fn.label} is an unknown value; the call is assumed not to mutate its arguments")
+            return fn.attrs[k]
         raise Unsupported(f"call of {type(fn).__name__}", node)
 
     def call_function(self, fn: SFunc, args, kwargs, node=None):
